@@ -216,7 +216,8 @@ async def start_client(
                 sent = await send_task
             except asyncio.CancelledError:
                 pass
-        rate_limiter.cleanup()
+        if rate_limiter:
+            rate_limiter.cleanup()
         duration = time() - start_time
         del subscription_queue
 
